@@ -1,7 +1,9 @@
 -------------------------------- MODULE HashOracle --------------------------------
 (* Cryptographic hash functions are uninterpreted (DESIGN.md 2.3).  An oracle is either  *)
 (*   HFree        : free constructors -- the digest of x under fn is the term            *)
-(*                  <<-2, FnId(fn)>> \o x  (injective, never equal to a byte string), or  *)
+(*                  <<-2, FnId(fn), Len(x)>> \o x  (injective, never equal to a byte      *)
+(*                  string; the length makes nested terms parseable, so the harness can    *)
+(*                  evaluate an exported term bottom-up with hashlib), or                  *)
 (*   HRows(rows)  : the finite graph recorded from the implementation's own hash calls,  *)
 (*                  every row certified against hashlib/hmac by the harness before TLC   *)
 (*                  sees it: rows[i] = [fn |-> name, in |-> bytes, out |-> bytes].        *)
@@ -11,6 +13,9 @@ EXTENDS Integers, Sequences
 
 FnId(fn) == CASE fn = "sha256" -> 1 [] fn = "hash256" -> 2 [] fn = "hash160" -> 3 [] fn = "ripemd160" -> 4
               [] fn = "sha1" -> 5 [] fn = "hmac512" -> 6 [] fn = "hmac256" -> 7 [] fn = "sha512" -> 8
+              [] fn = "tag:TapSighash" -> 20 [] fn = "tag:TapLeaf" -> 21 [] fn = "tag:TapBranch" -> 22 [] fn = "tag:TapTweak" -> 23
+              [] fn = "tag:BIP0340/aux" -> 24 [] fn = "tag:BIP0340/nonce" -> 25 [] fn = "tag:BIP0340/challenge" -> 26
+              [] fn = "tag:KeyAgg list" -> 27 [] fn = "tag:KeyAgg coefficient" -> 28 [] fn = "tag:MuSig/noncecoef" -> 29
               [] OTHER -> 99
 HFree == [mode |-> "free", rows |-> <<>>]
 HRows(rows) == [mode |-> "rows", rows |-> rows]
@@ -19,6 +24,6 @@ RECURSIVE HLookR(_, _, _, _)
 HLookR(rows, fn, x, i) == IF i > Len(rows) THEN NoHash
                           ELSE IF rows[i].fn = fn /\ rows[i].in = x THEN rows[i].out
                           ELSE HLookR(rows, fn, x, i + 1)
-HashIn(o, fn, x) == IF o.mode = "free" THEN <<-2, FnId(fn)>> \o x ELSE HLookR(o.rows, fn, x, 1)
+HashIn(o, fn, x) == IF o.mode = "free" THEN <<-2, FnId(fn), Len(x)>> \o x ELSE HLookR(o.rows, fn, x, 1)
 \* tagged hashes (BIP340): fn = "tag:<name>"; keyed hashes: input is key \o msg with fn carrying the key length
 ====================================================================================
